@@ -23,8 +23,10 @@ REQUIRED = {"C14": {"healthy-package": 200, "fault:duplicate": 30, "fault:defaul
                     "fault-raised-without-fms": 60, "fault-tolerated-with-fms": 60, "missing-package": 10, "disabled-class-skipped": 50,
                     "select:chooser-default": 50, "select:chooser-sim": 50, "select:auto-selector": 50, "select:auto-selector-unknown": 20,
                     "select:none": 30, "period-api": 200, "period-run": 60, "iteration-checked": 2000, "after-disable-silent": 100,
-                    "other-modes-silent-checked": 200, "chooser-options-checked": 200, "disable-after-run-silent": 30, "disable-mid-run": 15, "reselected-between-periods": 50, "elapsed-time-checked": 500}}
+                    "other-modes-silent-checked": 200, "chooser-options-checked": 200, "disable-after-run-silent": 30, "disable-mid-run": 15, "reselected-between-periods": 50, "elapsed-time-checked": 500,
+                    "mode-class-imported-from-library-module": 20, "run-period-of-1ms": 5}}
 ASSUMPTIONS = {"C14": ["a mode class re-exported by a second module is not generated (the statement does not say whether it is found twice)",
+                       "a mode class that exactly one package module imports from a module outside the package counts as 'found in the modules of the package'",
                        "with several DEFAULT modes and the FMS attached the preselected mode may be any of them",
                        "periodic() before the first start() and start() twice without disable() are not generated (unspecified)"]}
 
@@ -56,6 +58,9 @@ def gen_case(rng, uid):
             classes.append(c)
         modules.append({"name": f"m{mi}", "classes": classes, "broken": None, "imports_helper_from": None})
     eligible = [(m, c) for m in modules for c in m["classes"] if c["mode_name"] and not c["disabled"]]
+    if eligible and rng.random() < 0.2:
+        # a mode class defined in a shared library module outside the package and imported by exactly one package module
+        rng.choice(eligible)[1]["external"] = True
     if eligible and rng.random() < 0.6:
         rng.choice(eligible)[1]["default"] = True
     # helper base class shared across modules (never carries MODE_NAME)
@@ -103,12 +108,18 @@ def gen_case(rng, uid):
             periods.append(ops)
         else:
             its = rng.choice([1, 2, 5, 15])
-            periods.append({"iterations": its, "period_us": rng.choice([20000, 5000, 50000]),
+            periods.append({"iterations": its, "period_us": rng.choice([20000, 5000, 50000, 1000, 20000]),
                             "end": rng.choice(["disabled", "teleop", "exit"]), "disable_after": rng.random() < 0.6,
                             "disable_at": rng.randrange(0, its) if rng.random() < 0.25 else None})
     return {"uid": uid, "pkg": pkg, "missing": missing, "modules": modules, "fault": applied, "fms": fms, "select": sel,
             "reselect": rng.random() < 0.5,
             "sel_seed": rng.randrange(1 << 30), "style": style, "periods": periods}
+
+
+def _ident(case, m, c):
+    if c.get("external"):
+        return f"lib_{case['uid']}.{c['cls']}"
+    return f"{case['pkg']}.{m['name']}.{c['cls']}"
 
 
 def write_package(case, root):
@@ -117,6 +128,7 @@ def write_package(case, root):
     pkg = os.path.join(root, case["pkg"])
     os.makedirs(pkg)
     open(os.path.join(pkg, "__init__.py"), "w").close()
+    lib_src = ["import vf.sel_rt as rt", ""]
     for m in case["modules"]:
         src = ["import vf.sel_rt as rt", ""]
         if m["imports_helper_from"]:
@@ -127,8 +139,13 @@ def write_package(case, root):
             src.append("def broken(:\n    pass")
         src.append("class Helper:\n    def on_enable(self):\n        pass\n")
         for c in m["classes"]:
-            ident = f"{case['pkg']}.{m['name']}.{c['cls']}"
+            ident = _ident(case, m, c)
             base = "(Helper)" if m["imports_helper_from"] else ""
+            if c.get("external"):
+                # the class lives in a shared library module outside the package; this module merely imports it
+                src.append(f"from lib_{case['uid']} import {c['cls']}")
+                src, keep = lib_src, src
+                base = ""
             src.append(f"class {c['cls']}{base}:")
             if c["mode_name"]:
                 src.append(f"    MODE_NAME = {c['mode_name']!r}")
@@ -141,8 +158,13 @@ def write_package(case, root):
                 src.append(f"    def {h}(self):\n        rt.ev({h!r}, {ident!r})")
             src.append(f"    def on_iteration(self, tm):\n        rt.ev('on_iteration', {ident!r}, tm)")
             src.append("")
+            if c.get("external"):
+                src = keep
         with open(os.path.join(pkg, m["name"] + ".py"), "w") as f:
             f.write("\n".join(src) + "\n")
+    if len(lib_src) > 2:
+        with open(os.path.join(root, f"lib_{case['uid']}.py"), "w") as f:
+            f.write("\n".join(lib_src) + "\n")
 
 
 def analyse(case):
@@ -156,7 +178,7 @@ def analyse(case):
             faults.add("import")
             continue
         for c in m["classes"]:
-            ident = f"{case['pkg']}.{m['name']}.{c['cls']}"
+            ident = _ident(case, m, c)
             if not c["mode_name"]:
                 continue
             if c["disabled"]:
@@ -253,6 +275,8 @@ def run_case(acc, case):
             return
         if A["disabled"]:
             acc.ev("disabled-class-skipped")
+        if any(c.get("external") for _i, c, _g in A["eligible"]):
+            acc.ev("mode-class-imported-from-library-module")
         # ---- offered modes
         modes = selector.modes
         missing = [n for n in A["healthy"] if n not in modes or getattr(modes[n], "ident", None) != A["healthy"][n]]
@@ -349,7 +373,7 @@ def run_case(acc, case):
             sys.path.remove(root)
         except ValueError:
             pass
-        for k in [k for k in sys.modules if k == case["pkg"] or k.startswith(case["pkg"] + ".")]:
+        for k in [k for k in sys.modules if k == case["pkg"] or k.startswith(case["pkg"] + ".") or k == f"lib_{case['uid']}"]:
             del sys.modules[k]
         shutil.rmtree(root, ignore_errors=True)
         del sim, selector
@@ -502,6 +526,8 @@ def run_run_period(acc, case, selector, period, chosen, chosen_name, e):
     th.join(5)
     e.gate = None
     acc.ev("period-run")
+    if P == 1000:
+        acc.ev("run-period-of-1ms")
     if "exc" in box:
         acc.violation("C14/run-raised", f"run() raised {box['exc']!r}", case, {})
         return "violation"
@@ -547,6 +573,7 @@ def run_shard(spec):
     acc = Acc()
     for i in range(spec["n"]):
         case = gen_case(rng, f"{spec['seed'] % 46656:x}x{i:x}")
+        case["hist"] = [spec["seed"], i]
         run_case(acc, case)
         if i < 2:
             acc.samples.append({"modules": [{"name": m["name"], "broken": m["broken"],
@@ -561,4 +588,18 @@ def replay(pid, case):
     simenv.env()
     acc = Acc()
     run_case(acc, case)
-    return acc.violations[0] if acc.violations else None
+    if acc.violations or "hist" not in case:
+        return acc.violations[0] if acc.violations else None
+    # not reproducible alone: repeat it behind the cases that preceded it in its shard (process-wide state in the library)
+    seed, idx = case["hist"]
+    rng = random.Random(seed)
+    scratch = Acc()
+    for i in range(idx):
+        run_case(scratch, gen_case(rng, f"{seed % 46656:x}x{i:x}"))
+    acc = Acc()
+    run_case(acc, case)
+    if acc.violations:
+        v = acc.violations[0]
+        v["detail"] = dict(v.get("detail") or {}, needs_history=f"only behind the {idx} cases generated before it from shard seed {seed}")
+        return v
+    return None
